@@ -1,15 +1,18 @@
 """C04 — a vapour-liquid flash honours its specifications and the equilibrium conditions.
 Reuses the C03 harness (stubbed + replayed VLE calls) with the FULL comparison (flows, T, P, exception,
 state at the raise, number of oracle calls) and adds the compute_phase_fraction_2N kernel (py_func)."""
+import os
 import numpy as np
+os.environ.setdefault('NUMBA_CACHE_DIR', os.path.join(os.path.dirname(os.path.dirname(os.path.abspath(__file__))), '.cache', 'numba_C04'))   # see props/C08.py
 from fractions import Fraction as F
 from vf import q, qlist, clist, cbool, cnat, copt, frac, fr_json
 import C03
 
 ID = 'C04'
 COQ_DIR = 'C04'
-EXTRA_COQ_DIRS = ('C03',)
+EXTRA_COQ_DIRS = ('C03', 'C08')
 COQ_HEADER = 'From V Require Import Common.Num C03.Model C04.Model.\nOpen Scope Q_scope.'
+MODEL_FILES = ('Model.v',)
 CASE_TIMEOUT = 60
 RULE = ('the VLE cases of C03 (every specification pair; stubbed solvers with adversarial outputs and real solvers replayed) compared on flows AND T, P; '
         'plus compute_phase_fraction_2N.py_func on dyadic (z1, z2, K1, K2) incl. K = 1 (zero denominator) against the Gallina closed form; '
@@ -29,9 +32,88 @@ def gen_cases(rng, tier):
     cases = [C03.gen_vle_case(rng) for _ in range(n_stub)]
     cases += [C03.gen_real_case(rng) for _ in range(n_real)]
     cases += [{'kind': 'rr2', 'z': [rng.choice(ZS), rng.choice(ZS)], 'K': [rng.choice(KS), rng.choice(KS)]} for _ in range(n_k)]
+    cases += [gen_xpkg_case(rng) for _ in range(16 if tier == 'quick' else 120)]
     cases += [gen_iter_case(rng, 2) for _ in range(n_k)]
     cases += [gen_iter_case(rng, rng.choice([1, 3, 4])) for _ in range(n_k)]
     return cases
+
+CLS = {'DortmundActivityCoefficients': 1, 'IdealActivityCoefficients': 2, 'IdealFugacityCoefficients': 1,
+       'MockPoyintingCorrectionFactors': 1}
+XMIX = [{'Water': 60., 'Ethanol': 40.}, {'Water': 55., 'Ethanol': 25., 'Methanol': 20.}, {'Ethanol': 8., 'Methanol': 8.},
+        {'Water': 30., 'Methanol': 10.}, {'Water': 5., 'Ethanol': 10., 'Methanol': 4.}]
+def gen_xpkg_case(rng):
+    """flashes with TWO property packages (default = Dortmund activity coefficients, and its .ideal()) over the SAME Chemical
+    objects, in sequence in one process, both orders: the memoised BubblePoint / DewPoint objects of VLE._setup"""
+    mix = rng.choice(XMIX)
+    first = rng.choice('DI'); other = 'I' if first == 'D' else 'D'
+    steps = [{'pkg': first, 'mix': mix}, {'pkg': other, 'mix': mix}]
+    for _ in range(rng.randint(0, 3)):
+        steps.append({'pkg': rng.choice('DI'), 'mix': rng.choice([mix, mix, rng.choice(XMIX)])})
+    for st in steps:
+        st['T'] = rng.choice([345., 355., 360., 350.]); st['P'] = rng.choice([101325., 101325., 80000.])
+    return {'kind': 'xpkg', 'steps': steps}
+
+def xpkg_env():
+    e = C03.env()
+    if 'ideal' not in e: e['ideal'] = e['thermo'].ideal()
+    return e
+
+def run_xpkg(case, observe=True):
+    e = xpkg_env(); tmo = e['tmo']
+    from thermosteam.equilibrium.bubble_point import BubblePoint
+    from thermosteam.equilibrium.dew_point import DewPoint
+    BubblePoint._cached.clear(); DewPoint._cached.clear()      # a process that has flashed nothing yet
+    out = []; keep = []
+    for st in case['steps']:
+        thermo = e['thermo'] if st['pkg'] == 'D' else e['ideal']
+        s = tmo.MultiStream(None, T=300., P=101325., phases='lg', thermo=thermo)
+        for k, v in st['mix'].items(): s.imol['l', k] = v
+        s.vle(T=st['T'], P=st['P'])
+        v = s.vle; bp = v._bubble_point; dp = v._dew_point; keep += [bp, dp, s]
+        cname = lambda o: type(o).__name__
+        out.append({'index': [int(i) for i in v._index],
+                    'key': [cname(thermo.Gamma(())) if False else thermo.Gamma.__name__, thermo.Phi.__name__, thermo.PCF.__name__],
+                    'bubble': [id(bp), cname(bp.gamma), cname(bp.phi), cname(bp.pcf)],
+                    'dew': [id(dp), cname(dp.gamma), cname(dp.phi), cname(dp.pcf)],
+                    'used_gamma': cname(v._gamma),
+                    'g': C03.fl(s.imol['g'].to_array()), 'l': C03.fl(s.imol['l'].to_array())})
+    for which in ('bubble', 'dew'):
+        seen = {}
+        for o in out:
+            o[which][0] = seen.setdefault(o[which][0], len(seen))
+    return {'steps': out}
+
+def coq_xpkg(case, out):
+    keys = clist([f'({clist(o["index"], cnat)}, {cnat(CLS[o["key"][0]])}, {cnat(CLS[o["key"][1]])}, {cnat(CLS[o["key"][2]])})' for o in out['steps']])
+    def exp(which):
+        return clist([f'(Ok ({cnat(o[which][0])}, ({cnat(CLS[o[which][1]])}, {cnat(CLS[o[which][2]])}, {cnat(CLS[o[which][3]])})))' for o in out['steps']])
+    used = all(o['used_gamma'] == o['bubble'][1] for o in out['steps'])      # VLE._gamma is the BubblePoint's gamma
+    return f'(setup_objects_check {keys} {exp("bubble")} && setup_objects_check {keys} {exp("dew")} && {cbool(used)})'
+
+def oracle_xpkg(case):
+    e = xpkg_env(); tmo = e['tmo']
+    out = run_xpkg(case)['steps']
+    ch = e['thermo'].chemicals
+    for st, o in zip(case['steps'], out):
+        idx = o['index']; T, P = st['T'], st['P']
+        tot = np.array(o['g']) + np.array(o['l']); F = tot.sum()
+        Psat = np.array([float(ch.tuple[i].Psat(T)) for i in idx])
+        g = np.array([o['g'][i] for i in idx]); l = np.array([o['l'][i] for i in idx])
+        if st['pkg'] == 'I':
+            z = np.array([tot[i] for i in idx]) / F; K = Psat / P
+            V = raoult_rr(z, K)
+            v = F * z * K * V / (1. + V * (K - 1.))
+            if np.abs(g - v).max() > 1e-4 * max(1., F):
+                return (f'ideal package after {[s_["pkg"] for s_ in case["steps"]]}: vapour flows {g.tolist()} differ from the Raoult '
+                        f'Rachford-Rice solution {v.tolist()} (T={T}, P={P}, mix={st["mix"]})')
+        elif g.sum() > 1e-9 * F and l.sum() > 1e-9 * F:
+            x = l / l.sum(); y = g / g.sum()
+            gamma = tmo.equilibrium.DortmundActivityCoefficients([ch.tuple[i] for i in idx])
+            fl_ = x * np.asarray(gamma(x, T)) * Psat; fg = y * P
+            if np.abs(fl_ - fg).max() > 2e-3 * P:
+                return (f'activity-coefficient package after {[s_["pkg"] for s_ in case["steps"]]}: liquid fugacities {fl_.tolist()} differ from '
+                        f'vapour fugacities {fg.tolist()} (T={T}, P={P}, mix={st["mix"]})')
+    return None
 
 XS = [0.5, 0.25, 0.75, 0.125, 1., 0., -0.25, 2.]
 LS = [0., 0.5, -0.5, 1., -1., 2., 0.25]
@@ -130,9 +212,13 @@ def run_impl(case):
             return {'V': None}
     if case['kind'] in ('it2', 'itn'):
         return run_iter(case)
+    if case['kind'] == 'xpkg':
+        return run_xpkg(case)
     return C03.run_vle(case)
 
 def coq_case(case, out):
+    if case['kind'] == 'xpkg':
+        return coq_xpkg(case, out)
     if case['kind'] in ('it2', 'itn'):
         return coq_iter(case, out)
     if case['kind'] == 'rr2':
@@ -149,11 +235,13 @@ def coq_show(case, out):
     return C03.coq_show(case, out) if case['kind'] == 'vle' else 'tt'
 
 def nontrivial(case, out):
+    if case['kind'] == 'xpkg': return len({o['bubble'][0] for o in out['steps']}) >= 2
     if case['kind'] == 'rr2': return out['V'] is not None
     if case['kind'] in ('it2', 'itn'): return out['w'] is not None and not ill_conditioned(out)
     return C03.nontrivial(case, out) or (out['init']['T'], out['init']['P']) != (out['final']['T'], out['final']['P'])
 
 def classify(case, out):
+    if case['kind'] == 'xpkg': return ['xpkg:' + ''.join(s_['pkg'] for s_ in case['steps'])]
     if case['kind'] == 'rr2': return ['rr2:' + ('value' if out['V'] is not None else 'zero-denominator')]
     if case['kind'] in ('it2', 'itn'):
         return [f'{case["kind"]}:n={case["n"]}:' + ('ill-conditioned (not compared)' if ill_conditioned(out) else 'value' if out['w'] is not None else 'arithmetic-error')]
@@ -193,6 +281,7 @@ def oracle(case):
     """The property on the REAL code with the REAL solvers: specified T/P are the stream's T/P after the call;
     a specified H is reproduced; a specified V is met; multiplying the feed (and H, S) by a constant multiplies the
     products by it; with the ideal package the T,P split equals an independent Raoult's-law Rachford-Rice solution."""
+    if case['kind'] == 'xpkg': return oracle_xpkg(case)
     if case['kind'] != 'vle': return None
     s = C03.build_stream(case)
     spec = C03.resolve_spec(case, s)
